@@ -36,6 +36,23 @@ pub fn vprepare(src: &str, hist: &mut Hist) -> Result<VPrepared, String> {
     let mut globals = Vec::new();
     for rd in &ir.root_definitions {
         match rd {
+            ir::RootDefinition::Function(id) if !ir.function_registry.get_function_signature(*id).template_params.is_empty() => {
+                // a function template: its instantiations are functions of their own (as the exporter emits them)
+                for child in ir.function_registry.iter() {
+                    if let Some(data) = ir.function_registry.get_template_instantiation_data(child) {
+                        if data.parent_id == *id {
+                            if let Some(f) = cv.func(child, hist) {
+                                items.push(f);
+                                funcs.push((
+                                    child.0,
+                                    ir.function_registry.get_function_name(child).to_string(),
+                                    names.get_name_leaf(ir::name_generator::NameSymbol::Function(child)).to_string(),
+                                ));
+                            }
+                        }
+                    }
+                }
+            }
             ir::RootDefinition::Function(id) => {
                 if let Some(f) = cv.func(*id, hist) {
                     items.push(f);
@@ -67,10 +84,16 @@ pub fn vprepare(src: &str, hist: &mut Hist) -> Result<VPrepared, String> {
             _ => items.push(node("unsupported", vec![a("RootDefinition")])),
         }
     }
-    // every struct / enum of the module (cheap, and the evaluators look them up by id)
+    // every struct / enum of the module (cheap, and the evaluators look them up by id); methods are functions
     let mut prog = Vec::new();
     for i in 0..ir.struct_registry.len() {
         prog.push(cv.struct_def(ir::StructId(i as u32)));
+        for mid in ir.struct_registry[i].methods.clone() {
+            match cv.func(mid, hist) {
+                Some(f) => items.push(f),
+                None => items.push(node("unsupported", vec![a("MethodWithoutBody")])),
+            }
+        }
     }
     for i in 0..ir.enum_registry.get_enum_count() {
         prog.push(cv.enum_def(ir::EnumId(i)));
@@ -81,7 +104,15 @@ pub fn vprepare(src: &str, hist: &mut Hist) -> Result<VPrepared, String> {
 
 pub fn vdump(src: &str) {
     let mut hist = Hist::default();
-    match vprepare(src, &mut hist) {
+    let prepared = match guard(|| vprepare(src, &mut Hist::default())) {
+        Ok(p) => p,
+        Err(pn) => {
+            println!("panic {}", pn);
+            return;
+        }
+    };
+    let _ = &mut hist;
+    match prepared {
         Ok(p) => {
             for f in &p.prog {
                 println!("IR  {}", f.show());
